@@ -619,6 +619,12 @@ func (it *Interp) analyzeB(fn *ssa.Function, args, bindings []AbsVal, heap Heap,
 				it.undecided("state bound exceeded in %s", fn)
 				return sum
 			}
+			if it.States > 20*it.Cfg.MaxStates {
+				// whole-run safety net: a diverging abstraction must end in
+				// "not decided", never in an exhausted machine
+				it.undecided("total state bound exceeded (while in %s)", fn)
+				return sum
+			}
 		}
 		if w.blk == nil {
 			// unwinding: run remaining defers.
@@ -864,7 +870,20 @@ func (it *Interp) execBlock(fn *ssa.Function, sum *Summary, w work, panicCtx boo
 				d.args = append(d.args, it.eval(st, a))
 			}
 			if loopDepth(blk) {
-				it.undecided("defer inside a loop in %s", fn)
+				// A call deferred inside a loop runs once per iteration, but
+				// only when the function returns. The abstraction keeps one
+				// pending instance per site (otherwise the defer stack grows
+				// without bound) and reports the construct to the rules.
+				it.Record(Event{Kind: "deferloop", Instr: ins, Fn: fn, Detail: map[string]string{"callee": ins.Common().String()}})
+				dup := false
+				for _, o := range st.Defers {
+					if o.call == ins {
+						dup = true
+					}
+				}
+				if dup {
+					continue
+				}
 			}
 			st.Defers = append(st.Defers, d)
 		case *ssa.RunDefers:
